@@ -8,6 +8,7 @@ package gohlslib
 import (
 	"bytes"
 	"fmt"
+	"net/url"
 	"os"
 	"strconv"
 	"strings"
@@ -31,7 +32,7 @@ func init() {
 
 var c08Scripts = [][]string{
 	{"PL", "FOLLOWSEG"}, {"PL", "FOLLOWPART"}, {"PL", "FOLLOWOLD"}, {"PL", "FOLLOWINIT"}, {"IDX", "PL"}, {"BR", "FOLLOWHINT"},
-	{"DELTA", "PL"}, {"PART", "SEG"}, {"INIT", "OLD"}, {"PH", "PL"}, {"UNK", "IDX"}, {"PLA", "FOLLOWSEG"}, {"PL", "PL"},
+	{"DELTA", "PL"}, {"PART", "SEG"}, {"INIT", "OLD"}, {"PH", "PL"}, {"UNK", "IDX"}, {"PLA", "FOLLOWSEG"}, {"PL", "PL"}, {"PLQ", "PL"},
 }
 
 func c08Scens(tier string) []msScen {
@@ -245,6 +246,58 @@ func c08Check(st *msState, s *vsched.Sched, tr *vsched.Trace) (string, []vsched.
 				add("inconsistent-multivariant", fmt.Sprintf("index.m3u8: %v\n%s", errs, canon(string(l.Body))))
 			}
 		case strings.HasSuffix(path, ".m3u8"):
+			// the view is the one this request asked for, whatever other readers ask at the same time: a Playlist Delta
+			// Update (EXT-X-SKIP in place of the EXT-X-MAP) exactly when the request carried _HLS_skip
+			if st.sc.Cfg.Variant != "mpegts" {
+				wantDelta := strings.Contains(l.URL, "_HLS_skip=")
+				hasSkip, hasMap := bytes.Contains(l.Body, []byte("#EXT-X-SKIP:")), bytes.Contains(l.Body, []byte("#EXT-X-MAP:"))
+				if wantDelta != hasSkip || wantDelta == hasMap {
+					add("inconsistent-snapshot/view-of-another-request", fmt.Sprintf("playlist served to %s for %s (%s): delta update requested=%v, EXT-X-SKIP present=%v, EXT-X-MAP present=%v\n%s", l.Thread, l.Sym, canon(l.URL), wantDelta, hasSkip, hasMap, canon(string(l.Body))))
+				}
+			}
+			// ... and the listed URIs carry this request's own query string (minus the _HLS_ directives), nobody else's
+			if mp, _, _ := m3u.Parse(l.Body, m3u.Options{}); mp != nil {
+				wantQ := ""
+				if i := strings.IndexByte(l.URL, '?'); i >= 0 {
+					var keep []string
+					for _, kv := range strings.Split(l.URL[i+1:], "&") {
+						if !strings.HasPrefix(kv, "_HLS_") {
+							keep = append(keep, kv)
+						}
+					}
+					wantQ = strings.Join(keep, "&")
+				}
+				var uris []string
+				if mp.HasMap {
+					uris = append(uris, mp.MapURI)
+				}
+				for _, sg := range mp.Segments {
+					if !sg.Gap {
+						uris = append(uris, sg.URI)
+					}
+					for _, pt := range sg.Parts {
+						uris = append(uris, pt.URI)
+					}
+				}
+				for _, pt := range mp.Parts {
+					uris = append(uris, pt.URI)
+				}
+				for _, ph := range mp.PreloadHints {
+					uris = append(uris, ph.URI)
+				}
+				for _, u := range uris {
+					q := ""
+					if i := strings.IndexByte(u, '?'); i >= 0 {
+						q = u[i+1:]
+					}
+					qa, _ := url.ParseQuery(q)
+					qb, _ := url.ParseQuery(wantQ)
+					if qa.Encode() != qb.Encode() { // the same pairs, however they are escaped
+						add("inconsistent-snapshot/query-of-another-request", fmt.Sprintf("playlist served to %s for %s (%s) lists %s: query %q, this request's is %q", l.Thread, l.Sym, canon(l.URL), canon(u), q, wantQ))
+						break
+					}
+				}
+			}
 			if errs := c08PlaylistInvariants(st.sc.Cfg, l.Body); len(errs) > 0 {
 				add("inconsistent-snapshot/"+classify(errs[0]), fmt.Sprintf("playlist served to %s for %s is not a consistent snapshot: %s\n%s", l.Thread, l.Sym, strings.Join(errs, "; "), canon(string(l.Body))))
 			}
